@@ -31,7 +31,7 @@ fn lt32(a: &[u8; 32], b: &[u8; 32]) -> bool {
 }
 
 fn commitment_check<const M: usize>() {
-    let secp = Secp256k1::verification_only();
+    let secp = crate::util::model_secp();
     let internal: UntweakedPublicKey = any_xonly();
     let out_key = any_xonly();
     let parity = if kani::any() { Parity::Odd } else { Parity::Even };
@@ -108,7 +108,7 @@ fn commitment_check<const M: usize>() {
 macro_rules! cc {
     ($name:ident, $m:expr) => {
         #[kani::proof]
-        #[kani::unwind(10)]
+        #[kani::unwind(36)]
         #[kani::stub(elements::hashes::sha256::HashEngine::process_blocks, stubs::sha256_process_blocks)]
         #[kani::stub(<core::any::TypeId as crate::stubs::traits::PEq>::eq, crate::stubs::typeid_eq_model)]
         pub fn $name() {
@@ -116,9 +116,8 @@ macro_rules! cc {
         }
     };
 }
-// NOT REGISTERED: kani-compiler 0.68 panics (intrinsics.rs:243, compare_bytes output type) on the lexicographic `[u8; 32] < [u8; 32]` comparison inside verify_taproot_commitment / sorted-pair hashing
-// begin prop=C15 tier=quick sha=uf secp=1 mem=16 timeout=1800 desc="ControlBlock::verify_taproot_commitment == reference (leaf hash, sorted-pair branch hashing, TapTweak of internal key and root, parity) for a path of M nodes; all other data symbolic"
+//@begin prop=C15 tier=quick sha=uf secp=1 mem=16 timeout=1800 desc="ControlBlock::verify_taproot_commitment == reference (leaf hash, sorted-pair branch hashing, TapTweak of internal key and root, parity) for a path of M nodes; all other data symbolic"
 cc!(commitment_depth0, 0);
 cc!(commitment_depth1, 1);
 cc!(commitment_depth2, 2);
-// end
+//@end
